@@ -504,6 +504,14 @@ def run(chk):
              '(a / x :ARG1-of (w / have-mod-91 :ARG2 7))', '(w / want-01 :ARG0 (b / boy) :ARG1 (g / go-02 :ARG0 b))',
              '(a / x :mod-of (b / y))', '(a / x :mod~1 (b / y~2) :polarity -)', '(a / x :mod _ :quant _2)',
              '(a / x :ARG0 (w / have-mod-91 :ARG1 (b / y) :ARG2 7))', '(c / x :subset c)', '(b / x :subset-of (a / y))']
+    # k reified nodes nested on the path that closes at the very end of the text: every dereification leaves one more
+    # superfluous POP on the last triple (k = 1..6; a constant, a node, an attribute list at the innermost level)
+    for k in range(1, 7):
+        for inner in ('7', '(z / zz)', '(z / zz :polarity - :quant 3)'):
+            text = inner
+            for j in range(k, 0, -1):
+                text = '(v%d / x%d :ARG1-of (w%d / have-mod-91 :ARG2 %s))' % (j, j, j, text)
+            named.append(text)
     for text in named:
         jobs.append(('amr', 'decoded', text, 0, cli + other if not quick else cli + other[:40]))
     for inf, n in plan:
